@@ -1,0 +1,17 @@
+#![allow(missing_docs)]
+//! See `lib.rs`: compiled only with feature `verif-hooks`.
+
+use d_engine_core::RaftNodeConfig;
+use d_engine_core::TypeConfig;
+use d_engine_proto::server::cluster::NodeMeta;
+
+pub use crate::membership::RaftMembership;
+
+/// Same call `NodeBuilder::build` makes (`RaftMembership::new` is `pub(crate)`).
+pub fn new_raft_membership<T: TypeConfig>(
+    node_id: u32,
+    initial_nodes: Vec<NodeMeta>,
+    config: RaftNodeConfig,
+) -> (RaftMembership<T>, tokio::sync::mpsc::Receiver<u32>) {
+    RaftMembership::new(node_id, initial_nodes, config)
+}
